@@ -9,6 +9,8 @@ every function of `Model/Edit.lean` is shown to return the *input* state wheneve
 exception classes that can escape are enumerated (`.key` / `.value` on well-formed inputs).
 -/
 namespace Nima.EditFail
+-- name tokens are compared by spelling in this file (see `NameCmp` in Model/Edit.lean)
+attribute [local instance] NameCmp.spelled
 
 open Nima.Node Nima.EditM
 
